@@ -120,4 +120,1412 @@ theorem holdsAt_of_skel {vs vs' : List Volume} (h : vs'.map skel = vs.map skel) 
         simp [hs] at this
         exact ⟨sl', by simp [slotAt, hv', hs], by rw [this, h2]⟩
 
+/-! ## one slot of one volume changes -/
+
+def modVol (i : Nat) (f : Slot → Slot) (u : Nat → Nat) (x : Volume) : Volume :=
+  { x with slots := modAt i f x.slots, used := u x.used }
+
+theorem modVol_id (i : Nat) (f : Slot → Slot) (u : Nat → Nat) (x : Volume) : (modVol i f u x).id = x.id := rfl
+
+theorem eq_of_findVol {vs : List Volume} (hn : (vs.map (·.id)).Nodup) {v : Nat} {vol x : Volume}
+    (hv : findVol v vs = some vol) (hx : x ∈ vs) (hid : x.id = v) : x = vol := by
+  have := findVol_of_mem hn hx
+  rw [hid, hv] at this
+  exact (Option.some.inj this).symm
+
+theorem core_mod {vs : List Volume} {m m' : Metrics} {v i : Nat} {vol : Volume} {sl : Slot}
+    (c : Core vs m) (hv : findVol v vs = some vol) (hs : vol.slots[i]? = some sl)
+    (f : Slot → Slot) (u : Nat → Nat)
+    (hocc : u vol.used + (if isOcc sl then 1 else 0) = vol.used + (if isOcc (f sl) then 1 else 0))
+    (hmt : m'.total = m.total) (hmp : m'.physical + vol.used = m.physical + u vol.used)
+    (hu : ∀ r', cnt vs r' + (if holds r' (f sl) then 1 else 0) ≤ 1 + (if holds r' sl then 1 else 0)) :
+    Core (updVol v (modVol i f u) vs) m' := by
+  have hvm := (findVol_some hv).1
+  have hvo := c.vol vol hvm
+  refine ⟨by rw [updVol_ids _ _ _ (modVol_id i f u)]; exact c.ids, ?_, ?_, ?_, ?_⟩
+  · intro y hy
+    rcases mem_updVol hy with ⟨h1, _⟩ | ⟨x, hx, hid, rfl⟩
+    · exact c.vol y h1
+    · have := eq_of_findVol c.ids hv hx hid
+      subst this
+      have h1 := countP_modAt isOcc i f x.slots sl hs
+      simp only [VolOK, modVol, modAt_length, occ] at hvo ⊢
+      exact ⟨by omega, hvo.2⟩
+  · intro r'
+    have h1 := sumBy_updVol (fun v => v.slots.countP (holds r')) v (modVol i f u) vs c.ids vol hv
+    have h2 := countP_modAt (holds r') i f vol.slots sl hs
+    have h3 := hu r'
+    simp only [cnt, modVol] at h1 h3 ⊢
+    omega
+  · rw [hmt, c.mTotal]; symm
+    apply sumBy_updVol_same
+    intros; rfl
+  · have h1 := sumBy_updVol (·.used) v (modVol i f u) vs c.ids vol hv
+    have := c.mPhys
+    simp only [modVol] at h1
+    omega
+
+theorem slotAt_modVol (vs : List Volume) (v i v' i' : Nat) (f : Slot → Slot) (u : Nat → Nat) :
+    slotAt (updVol v (modVol i f u) vs) v' i' =
+      if v' = v ∧ i' = i then (slotAt vs v' i').map f else slotAt vs v' i' := by
+  rw [slotAt_updVol _ _ _ _ (modVol_id i f u)]
+  by_cases h : v' = v
+  · subst h
+    simp only [true_and, if_true, slotAt]
+    cases findVol v' vs with
+    | none => simp
+    | some vol => simp only [modVol, modAt_getElem?]
+  · simp [h]
+
+theorem placeAt_eq (vs : List Volume) (v i : Nat) (r : SectorId) :
+    placeAt vs v i r = updVol v (modVol i (setSec (some r)) (· + 1)) vs := rfl
+theorem clearAt_eq (vs : List Volume) (v i : Nat) :
+    clearAt vs v i = updVol v (modVol i (setSec none) (· - 1)) vs := rfl
+theorem modSlot_eq (vs : List Volume) (v i : Nat) (f : Slot → Slot) :
+    modSlot v i f vs = updVol v (modVol i f id) vs := rfl
+
+theorem slotAt_split {vs : List Volume} {v i : Nat} {sl : Slot} (h : slotAt vs v i = some sl) :
+    ∃ vol, findVol v vs = some vol ∧ vol.slots[i]? = some sl := by
+  simp only [slotAt] at h
+  split at h
+  · simp at h
+  · exact ⟨_, ‹_›, h⟩
+
+theorem core_place {vs : List Volume} {m : Metrics} {v i : Nat} {r : SectorId} {sl : Slot}
+    (c : Core vs m) (hs : slotAt vs v i = some sl) (hfree : sl.sec = none) (hr : cnt vs r = 0) :
+    Core (placeAt vs v i r) { m with physical := m.physical + 1 } := by
+  obtain ⟨vol, hv, hs⟩ := slotAt_split hs
+  rw [placeAt_eq]
+  apply core_mod c hv hs
+  · simp [isOcc, setSec, hfree]
+  · rfl
+  · simp only; omega
+  · intro r'
+    have := c.uniq r'
+    by_cases e : r' = r
+    · subst e; simp [holds, setSec, hfree, hr]
+    · have : holds r' (setSec (some r) sl) = false := by simp [holds, setSec]; exact fun h => e h.symm
+      simp only [this]; simp; omega
+
+theorem core_clear {vs : List Volume} {m : Metrics} {v i : Nat} {r : SectorId}
+    (c : Core vs m) (hh : holdsAt vs v i r) :
+    Core (clearAt vs v i) { m with physical := m.physical - 1 } ∧ m.physical ≥ 1 ∧
+      ∃ vol, findVol v vs = some vol ∧ vol.used ≥ 1 := by
+  obtain ⟨sl, hs, hsec⟩ := hh
+  obtain ⟨vol, hv, hs⟩ := slotAt_split hs
+  have hvm := (findVol_some hv).1
+  have hvo := c.vol vol hvm
+  have hpos : vol.used ≥ 1 := by
+    rw [hvo.1]
+    show 0 < occ vol.slots
+    simp only [occ]; rw [List.countP_pos_iff]
+    exact ⟨sl, List.mem_of_getElem? hs, by simp [isOcc, hsec]⟩
+  have hle := sumBy_le_of_mem (·.used) hvm
+  have hp := c.mPhys
+  refine ⟨?_, by omega, vol, hv, hpos⟩
+  rw [clearAt_eq]
+  apply core_mod c hv hs
+  · simp [isOcc, setSec, hsec]; omega
+  · rfl
+  · simp only; omega
+  · intro r'
+    have := c.uniq r'
+    simp only [holds, setSec]
+    simp; split <;> omega
+
+/-! ## pending reservations survive changes elsewhere -/
+
+theorem holdsAt_modVol_other {vs : List Volume} {v i v' i' : Nat} {r' : SectorId} (f : Slot → Slot) (u : Nat → Nat)
+    (h : holdsAt vs v' i' r') (hne : ¬ (v' = v ∧ i' = i)) : holdsAt (updVol v (modVol i f u) vs) v' i' r' := by
+  obtain ⟨sl, h1, h2⟩ := h
+  exact ⟨sl, by rw [slotAt_modVol]; simp [hne, h1], h2⟩
+
+theorem holdsAt_modVol_sec {vs : List Volume} {v i v' i' : Nat} {r' : SectorId} (f : Slot → Slot) (u : Nat → Nat)
+    (hf : ∀ x, (f x).sec = x.sec) (h : holdsAt vs v' i' r') : holdsAt (updVol v (modVol i f u) vs) v' i' r' := by
+  obtain ⟨sl, h1, h2⟩ := h
+  by_cases hne : v' = v ∧ i' = i
+  · exact ⟨f sl, by rw [slotAt_modVol, if_pos hne, h1]; rfl, by rw [hf, h2]⟩
+  · exact ⟨sl, by rw [slotAt_modVol]; simp [hne, h1], h2⟩
+
+/-- two located sectors in the same slot are the same sector -/
+theorem holdsAt_inj {vs : List Volume} {v i : Nat} {r r' : SectorId} (h : holdsAt vs v i r) (h' : holdsAt vs v i r') : r = r' := by
+  obtain ⟨sl, h1, h2⟩ := h
+  obtain ⟨sl', h1', h2'⟩ := h'
+  rw [h1] at h1'; cases h1'
+  rw [h2] at h2'; exact Option.some.inj h2'
+
+/-! ## contracts -/
+
+theorem sumLen1_setRoots {cs : List C1} (hn : (cs.map (·.id)).Nodup) {c : Nat} {con : C1} (hc : findC1 c cs = some con)
+    (roots : List SectorId) : sumLen1 (setRoots1 c roots cs) + con.roots.length = sumLen1 cs + roots.length := by
+  induction cs with
+  | nil => simp [findC1] at hc
+  | cons x xs ih =>
+    simp only [List.map_cons, List.nodup_cons] at hn
+    simp only [findC1] at hc
+    by_cases hx : x.id = c
+    · simp only [hx, if_true] at hc
+      simp at hc; subst hc
+      have : setRoots1 c roots xs = xs := by
+        simp only [setRoots1]
+        conv => rhs; rw [← List.map_id xs]
+        apply List.map_congr_left
+        intro y hy
+        have : y.id ≠ c := by
+          intro e; apply hn.1; simp only [List.mem_map]; exact ⟨y, hy, by rw [e, hx]⟩
+        simp [this]
+      simp only [setRoots1, List.map_cons, hx, if_true, sumLen1] at this ⊢
+      rw [this]; omega
+    · simp only [hx, if_false] at hc
+      have := ih hn.2 hc
+      simp only [setRoots1, List.map_cons, hx, if_false, sumLen1] at this ⊢
+      omega
+
+theorem sumLen2_setRoots {cs : List C2} (hn : (cs.map (·.id)).Nodup) {c : Nat} {con : C2} (hc : findC2 c cs = some con)
+    (roots : List SectorId) : sumLen2 (setRoots2 c roots cs) + con.roots.length = sumLen2 cs + roots.length := by
+  induction cs with
+  | nil => simp [findC2] at hc
+  | cons x xs ih =>
+    simp only [List.map_cons, List.nodup_cons] at hn
+    simp only [findC2] at hc
+    by_cases hx : x.id = c
+    · simp only [hx, if_true] at hc
+      simp at hc; subst hc
+      have : setRoots2 c roots xs = xs := by
+        simp only [setRoots2]
+        conv => rhs; rw [← List.map_id xs]
+        apply List.map_congr_left
+        intro y hy
+        have : y.id ≠ c := by
+          intro e; apply hn.1; simp only [List.mem_map]; exact ⟨y, hy, by rw [e, hx]⟩
+        simp [this]
+      simp only [setRoots2, List.map_cons, hx, if_true, sumLen2] at this ⊢
+      rw [this]; omega
+    · simp only [hx, if_false] at hc
+      have := ih hn.2 hc
+      simp only [setRoots2, List.map_cons, hx, if_false, sumLen2] at this ⊢
+      omega
+
+theorem setRoots1_ids (c : Nat) (roots : List SectorId) (cs : List C1) : (setRoots1 c roots cs).map (·.id) = cs.map (·.id) := by
+  induction cs with
+  | nil => rfl
+  | cons x xs ih => simp only [setRoots1, List.map_cons] at ih ⊢; rw [ih]; split <;> rfl
+theorem setRoots2_ids (c : Nat) (roots : List SectorId) (cs : List C2) : (setRoots2 c roots cs).map (·.id) = cs.map (·.id) := by
+  induction cs with
+  | nil => rfl
+  | cons x xs ih => simp only [setRoots2, List.map_cons] at ih ⊢; rw [ih]; split <;> rfl
+
+theorem findC1_mem {c : Nat} {cs : List C1} {con : C1} (h : findC1 c cs = some con) : con ∈ cs := by
+  induction cs with
+  | nil => simp [findC1] at h
+  | cons x xs ih =>
+    simp only [findC1] at h
+    split at h
+    · simp at h; simp [h]
+    · simp [ih h]
+theorem findC2_mem {c : Nat} {cs : List C2} {con : C2} (h : findC2 c cs = some con) : con ∈ cs := by
+  induction cs with
+  | nil => simp [findC2] at h
+  | cons x xs ih =>
+    simp only [findC2] at h
+    split at h
+    · simp at h; simp [h]
+    · simp [ih h]
+
+theorem sumLen1_mem_le {cs : List C1} {con : C1} (h : con ∈ cs) : con.roots.length ≤ sumLen1 cs := by
+  induction cs with
+  | nil => simp at h
+  | cons x xs ih =>
+    simp at h; simp only [sumLen1]
+    rcases h with rfl | h
+    · omega
+    · have := ih h; omega
+theorem sumLen2_mem_le {cs : List C2} {con : C2} (h : con ∈ cs) : con.roots.length ≤ sumLen2 cs := by
+  induction cs with
+  | nil => simp at h
+  | cons x xs ih =>
+    simp at h; simp only [sumLen2]
+    rcases h with rfl | h
+    · omega
+    · have := ih h; omega
+
+theorem sumLen1_expire (p : C1 → Bool) (cs : List C1) :
+    sumLen1 (cs.map fun c => if p c then { c with roots := [] } else c) + sumLen1 (cs.filter p) = sumLen1 cs := by
+  induction cs with
+  | nil => rfl
+  | cons x xs ih =>
+    simp only [List.map_cons, List.filter_cons]
+    by_cases h : p x <;> simp [h, sumLen1] <;> omega
+theorem sumLen2_expire (p : C2 → Bool) (cs : List C2) :
+    sumLen2 (cs.map fun c => if p c then { c with roots := [] } else c) + sumLen2 (cs.filter p) = sumLen2 cs := by
+  induction cs with
+  | nil => rfl
+  | cons x xs ih =>
+    simp only [List.map_cons, List.filter_cons]
+    by_cases h : p x <;> simp [h, sumLen2] <;> omega
+
+theorem sumLen1_map_roots (g : C1 → C1) (hg : ∀ c, (g c).roots = c.roots) (cs : List C1) : sumLen1 (cs.map g) = sumLen1 cs := by
+  induction cs with
+  | nil => rfl
+  | cons x xs ih => simp only [List.map_cons, sumLen1, ih, hg]
+theorem sumLen2_map_roots (g : C2 → C2) (hg : ∀ c, (g c).roots = c.roots) (cs : List C2) : sumLen2 (cs.map g) = sumLen2 cs := by
+  induction cs with
+  | nil => rfl
+  | cons x xs ih => simp only [List.map_cons, sumLen2, ih, hg]
+
+theorem sumLen1_append (a b : List C1) : sumLen1 (a ++ b) = sumLen1 a + sumLen1 b := by
+  induction a with
+  | nil => simp [sumLen1]
+  | cons x xs ih => simp only [List.cons_append, sumLen1, ih]; omega
+theorem sumLen2_append (a b : List C2) : sumLen2 (a ++ b) = sumLen2 a + sumLen2 b := by
+  induction a with
+  | nil => simp [sumLen2]
+  | cons x xs ih => simp only [List.cons_append, sumLen2, ih]; omega
+
+theorem findC1_none_ids {c : Nat} {cs : List C1} (h : findC1 c cs = none) : c ∉ cs.map (·.id) := by
+  induction cs with
+  | nil => simp
+  | cons x xs ih =>
+    simp only [findC1] at h
+    split at h
+    · simp at h
+    · simp only [List.map_cons, List.mem_cons, not_or]
+      exact ⟨fun e => ‹¬ x.id = c› e.symm, ih h⟩
+theorem findC2_none_ids {c : Nat} {cs : List C2} (h : findC2 c cs = none) : c ∉ cs.map (·.id) := by
+  induction cs with
+  | nil => simp
+  | cons x xs ih =>
+    simp only [findC2] at h
+    split at h
+    · simp at h
+    · simp only [List.map_cons, List.mem_cons, not_or]
+      exact ⟨fun e => ‹¬ x.id = c› e.symm, ih h⟩
+
+/-! ## the operations, one by one -/
+
+/-- schedules excluded from `C08_slot_inv`: maintenance that tears a slot away from a `StoreSector`
+call which is between its slot commit and the end of its data write (see `C08_unsafe_breaks`) -/
+def Safe (s : State) : Op → Prop
+  | .tick => s.pending = []
+  | .removeSector r _ => ∀ p ∈ s.pending, p.r ≠ r
+  | .removeVolume v force => force = true → ∀ p ∈ s.pending, p.v ≠ v
+  | .migrate v _ _ => ∀ p ∈ s.pending, p.v ≠ v
+  | .vmResize v _ _ => ∀ p ∈ s.pending, p.v ≠ v
+  | .vmRemove v _ _ => ∀ p ∈ s.pending, p.v ≠ v
+  | _ => True
+
+theorem metaOK_frame {s s' : State} (h : MetaOK s) (hv : s'.vols = s.vols) (hm : s'.m = s.m) (h1 : s'.c1 = s.c1)
+    (h2 : s'.c2 = s.c2) (ht : s'.temps = s.temps) (hp : s'.pending = s.pending) (hr : ∀ x ∈ s.recent, x ∈ s'.recent) :
+    MetaOK s' := by
+  refine ⟨by rw [hv, hm]; exact h.core, by rw [h1]; exact h.c1ids, by rw [h2]; exact h.c2ids,
+    by rw [hm, h1, h2]; exact h.mContract, by rw [hm, ht]; exact h.mTemp, ?_, by rw [hp]; exact h.pendR, ?_⟩
+  · intro p hp'; rw [hv]; exact h.pend p (hp ▸ hp')
+  · intro p hp'; exact hr _ (h.pendRec p (hp ▸ hp'))
+
+/-- volume table replaced by one with the same skeleton (flags, file contents, fsync state differ) -/
+theorem metaOK_skel {s s' : State} (h : MetaOK s) (hv : s'.vols.map skel = s.vols.map skel) (hm : s'.m = s.m) (h1 : s'.c1 = s.c1)
+    (h2 : s'.c2 = s.c2) (ht : s'.temps = s.temps) (hp : ∀ p ∈ s'.pending, p ∈ s.pending) (hpr : (s'.pending.map (·.r)).Nodup)
+    (hr : ∀ x ∈ s.recent, x ∈ s'.recent) : MetaOK s' := by
+  refine ⟨by rw [hm]; exact core_of_skel hv h.core, by rw [h1]; exact h.c1ids, by rw [h2]; exact h.c2ids,
+    by rw [hm, h1, h2]; exact h.mContract, by rw [hm, ht]; exact h.mTemp, ?_, hpr, ?_⟩
+  · intro p hp'; exact holdsAt_of_skel hv (h.pend p (hp p hp'))
+  · intro p hp'; exact hr _ (h.pendRec p (hp p hp'))
+
+theorem addVolume_ok {s : State} (h : MetaOK s) (id : Nat) (ro : Bool) : MetaOK (addVolume s id ro).1 := by
+  simp only [addVolume]
+  split
+  · exact h
+  · rename_i hf
+    have hnone : findVol id s.vols = none := by
+      cases hx : findVol id s.vols <;> simp [hx] at hf ⊢
+    have c := h.core
+    refine ⟨⟨?_, ?_, ?_, ?_, ?_⟩, h.c1ids, h.c2ids, h.mContract, h.mTemp, ?_, h.pendR, h.pendRec⟩
+    · simp only [List.map_append, List.map_cons, List.map_nil]
+      rw [List.nodup_append]
+      refine ⟨c.ids, by simp, ?_⟩
+      intro a ha b hb
+      simp at hb; subst hb
+      obtain ⟨x, hx, rfl⟩ := List.mem_map.mp ha
+      exact findVol_none hnone x hx
+    · intro v hv
+      simp at hv
+      rcases hv with hv | rfl
+      · exact c.vol v hv
+      · simp [VolOK, occ]
+    · intro r; have := c.uniq r
+      simp only [cnt, sumBy_append, sumBy] at this ⊢; simp; exact this
+    · simp only [sumBy_append, sumBy]; simp; exact c.mTotal
+    · simp only [sumBy_append, sumBy]; simp; exact c.mPhys
+    · intro p hp
+      obtain ⟨sl, h1, h2⟩ := h.pend p hp
+      obtain ⟨vol, hv, hs⟩ := slotAt_split h1
+      exact ⟨sl, by simp [slotAt, findVol_append_of_some hv, hs], h2⟩
+
+theorem occ_append (a b : List Slot) : occ (a ++ b) = occ a + occ b := by simp [occ]
+theorem occ_replicate_empty (k : Nat) : occ (List.replicate k ({} : Slot)) = 0 := by
+  simp only [occ, List.countP_eq_zero]; intro a ha; rw [List.eq_of_mem_replicate ha]; simp [isOcc]
+
+theorem grow_ok {s : State} (h : MetaOK s) (v n : Nat) : MetaOK (grow s v n).1 := by
+  simp only [grow]
+  split
+  · exact h
+  · split
+    · exact h
+    · rename_i vol hv
+      split
+      · exact h
+      · rename_i hlt
+        have c := h.core
+        have hvm := (findVol_some hv).1
+        have hvo := c.vol vol hvm
+        let g : Volume → Volume := fun x => { x with slots := x.slots ++ List.replicate (n - x.total) {}, total := n }
+        have hgid : ∀ x, (g x).id = x.id := fun _ => rfl
+        refine ⟨⟨?_, ?_, ?_, ?_, ?_⟩, h.c1ids, h.c2ids, h.mContract, h.mTemp, ?_, h.pendR, h.pendRec⟩
+        · show ((updVol v g s.vols).map (·.id)).Nodup
+          rw [updVol_ids _ _ _ hgid]; exact c.ids
+        · intro y hy
+          rcases mem_updVol hy with ⟨h1, _⟩ | ⟨x, hx, hid, rfl⟩
+          · exact c.vol y h1
+          · have := c.vol x hx
+            simp only [VolOK, occ_append, occ_replicate_empty, List.length_append, List.length_replicate] at this ⊢
+            have e := eq_of_findVol c.ids hv hx hid
+            subst e
+            omega
+        · intro r
+          have : cnt (updVol v g s.vols) r = cnt s.vols r := by
+            apply sumBy_updVol_same
+            intro x _ _
+            simp only [g, List.countP_append]
+            have : List.countP (holds r) (List.replicate (n - x.total) ({} : Slot)) = 0 := by
+              rw [List.countP_eq_zero]; intro a ha; rw [List.eq_of_mem_replicate ha]; simp [holds]
+            omega
+          show cnt (updVol v g s.vols) r ≤ 1
+          rw [this]; exact c.uniq r
+        · have h1 : sumBy (·.total) (updVol v g s.vols) + vol.total = sumBy (·.total) s.vols + n :=
+            sumBy_updVol (·.total) v g s.vols c.ids vol hv
+          have := c.mTotal
+          show s.m.total + (n - vol.total) = sumBy (·.total) (updVol v g s.vols)
+          omega
+        · have : sumBy (·.used) (updVol v g s.vols) = sumBy (·.used) s.vols := by
+            apply sumBy_updVol_same; intros; rfl
+          show s.m.physical = sumBy (·.used) (updVol v g s.vols)
+          rw [this]; exact c.mPhys
+        · intro p hp
+          obtain ⟨sl, h1, h2⟩ := h.pend p hp
+          obtain ⟨pv, hpv, hs⟩ := slotAt_split h1
+          refine ⟨sl, ?_, h2⟩
+          show slotAt (updVol v g s.vols) p.v p.i = some sl
+          rw [slotAt_updVol _ _ _ _ hgid]
+          by_cases e : p.v = v
+          · simp only [e, if_true, hv]
+            rw [e, hv] at hpv; cases hpv
+            have : p.i < vol.slots.length := by
+              have := List.getElem?_eq_some_iff.mp hs; exact this.1
+            simp only [g, List.getElem?_append_left this]; exact hs
+          · simp only [e, if_false]; exact h1
+
+theorem setFlags_ok {s : State} (h : MetaOK s) (v : Nat) (g : Volume → Volume) (hg : ∀ x, skel (g x) = skel x) :
+    MetaOK { s with vols := updVol v g s.vols } :=
+  metaOK_skel h (updVol_skel v g hg s.vols) rfl rfl rfl rfl (fun _ hp => hp) h.pendR (fun _ hx => hx)
+
+theorem setReadOnly_ok {s : State} (h : MetaOK s) (v : Nat) (b : Bool) : MetaOK (setReadOnly s v b) :=
+  setFlags_ok h v _ (fun _ => rfl)
+theorem setAvailable_ok {s : State} (h : MetaOK s) (v : Nat) (b : Bool) : MetaOK (setAvailable s v b) :=
+  setFlags_ok h v _ (fun _ => rfl)
+
+theorem nodup_map_inj {α β : Type} {f : α → β} {l : List α} (hn : (l.map f).Nodup) {a b : α} (ha : a ∈ l) (hb : b ∈ l)
+    (e : f a = f b) : a = b := by
+  induction l with
+  | nil => simp at ha
+  | cons x xs ih =>
+    simp only [List.map_cons, List.nodup_cons, List.mem_map, not_exists, not_and] at hn
+    simp at ha hb
+    rcases ha with rfl | ha <;> rcases hb with rfl | hb
+    · rfl
+    · exact absurd e.symm (hn.1 b hb)
+    · exact absurd e (hn.1 a ha)
+    · exact ih hn.2 ha hb
+
+theorem nodup_map_filter {α β : Type} {f : α → β} {l : List α} (p : α → Bool) (hn : (l.map f).Nodup) : ((l.filter p).map f).Nodup :=
+  List.Nodup.sublist ((List.filter_sublist).map f) hn
+
+theorem occ_take_drop (n : Nat) (l : List Slot) : occ l = occ (l.take n) + occ (l.drop n) := by
+  conv => lhs; rw [← List.take_append_drop n l]
+  exact occ_append _ _
+
+theorem shrink_ok {s : State} (h : MetaOK s) (v n : Nat) : MetaOK (shrink s v n).1 := by
+  simp only [shrink]
+  split
+  · exact h
+  split
+  · exact h
+  rename_i vol hv
+  split
+  · exact h
+  rename_i hocc
+  split
+  · exact h
+  rename_i hle
+  split
+  · exact h
+  rename_i hmt
+  have c := h.core
+  have hvm := (findVol_some hv).1
+  have hvo := c.vol vol hvm
+  have hocc0 : occ (vol.slots.drop n) = 0 := by simpa using hocc
+  let g : Volume → Volume := fun x => { x with slots := x.slots.take n, total := n }
+  have hgid : ∀ x, (g x).id = x.id := fun _ => rfl
+  refine ⟨⟨?_, ?_, ?_, ?_, ?_⟩, h.c1ids, h.c2ids, h.mContract, h.mTemp, ?_, h.pendR, h.pendRec⟩
+  · show ((updVol v g s.vols).map (·.id)).Nodup
+    rw [updVol_ids _ _ _ hgid]; exact c.ids
+  · intro y hy
+    rcases mem_updVol hy with ⟨h1, _⟩ | ⟨x, hx, hid, rfl⟩
+    · exact c.vol y h1
+    · have e := eq_of_findVol c.ids hv hx hid
+      subst e
+      have := occ_take_drop n x.slots
+      simp only [VolOK, g, List.length_take] at hvo ⊢
+      omega
+  · intro r
+    have : cnt (updVol v g s.vols) r ≤ cnt s.vols r := by
+      simp only [cnt, updVol, sumBy_map]
+      apply sumBy_le_sumBy
+      intro x _
+      split
+      · simp only [g]
+        exact List.Sublist.countP_le (List.take_sublist n x.slots)
+      · exact Nat.le_refl _
+    exact Nat.le_trans this (c.uniq r)
+  · have h1 : sumBy (·.total) (updVol v g s.vols) + vol.total = sumBy (·.total) s.vols + n :=
+      sumBy_updVol (·.total) v g s.vols c.ids vol hv
+    have := c.mTotal
+    show s.m.total - (vol.total - n) = sumBy (·.total) (updVol v g s.vols)
+    omega
+  · have : sumBy (·.used) (updVol v g s.vols) = sumBy (·.used) s.vols := by
+      apply sumBy_updVol_same; intros; rfl
+    show s.m.physical = sumBy (·.used) (updVol v g s.vols)
+    rw [this]; exact c.mPhys
+  · intro p hp
+    obtain ⟨sl, h1, h2⟩ := h.pend p hp
+    obtain ⟨pv, hpv, hs⟩ := slotAt_split h1
+    refine ⟨sl, ?_, h2⟩
+    show slotAt (updVol v g s.vols) p.v p.i = some sl
+    rw [slotAt_updVol _ _ _ _ hgid]
+    by_cases e : p.v = v
+    · simp only [e, if_true, hv]
+      rw [e, hv] at hpv; cases hpv
+      have hi : p.i < n := by
+        apply Classical.byContradiction; intro hge
+        have hge : n ≤ p.i := Nat.le_of_not_lt hge
+        have hmem : sl ∈ vol.slots.drop n := by
+          have : (vol.slots.drop n)[p.i - n]? = some sl := by
+            rw [List.getElem?_drop]; rw [show n + (p.i - n) = p.i by omega]; exact hs
+          exact List.mem_of_getElem? this
+        have : 0 < occ (vol.slots.drop n) := by
+          simp only [occ]; rw [List.countP_pos_iff]; exact ⟨sl, hmem, by simp [isOcc, h2]⟩
+        omega
+      simp only [g, List.getElem?_take, hi, if_true]; exact hs
+    · simp only [e, if_false]; exact h1
+
+theorem removeVolume_ok {s : State} (h : MetaOK s) (v : Nat) (force : Bool) (hs : Safe s (.removeVolume v force)) :
+    MetaOK (removeVolume s v force).1 := by
+  simp only [removeVolume]
+  split
+  · exact h
+  rename_i vol hv
+  split
+  · exact h
+  rename_i hforce
+  split
+  · exact h
+  split
+  · exact h
+  have c := h.core
+  have hvm := (findVol_some hv).1
+  have hvo := c.vol vol hvm
+  have hpv : ∀ p ∈ s.pending, p.v ≠ v := by
+    cases force with
+    | true => exact hs rfl
+    | false =>
+      intro p hp e
+      obtain ⟨sl, h1, h2⟩ := h.pend p hp
+      obtain ⟨pv, hpv, hsl⟩ := slotAt_split h1
+      rw [e, hv] at hpv; cases hpv
+      have : 0 < occ vol.slots := by
+        simp only [occ]; rw [List.countP_pos_iff]; exact ⟨sl, List.mem_of_getElem? hsl, by simp [isOcc, h2]⟩
+      simp at hforce; omega
+  refine ⟨⟨?_, ?_, ?_, ?_, ?_⟩, h.c1ids, h.c2ids, h.mContract, h.mTemp, ?_, h.pendR, h.pendRec⟩
+  · exact List.Nodup.sublist ((List.filter_sublist).map _) c.ids
+  · intro y hy; exact c.vol y (List.mem_filter.mp hy).1
+  · intro r; exact Nat.le_trans (sumBy_filter_le _ _ _) (c.uniq r)
+  · have := sumBy_filter_id (·.total) v s.vols c.ids vol hv
+    have := c.mTotal
+    simp only [VolOK] at hvo
+    show s.m.total - vol.slots.length = sumBy (·.total) (s.vols.filter fun x => x.id != v)
+    omega
+  · have := sumBy_filter_id (·.used) v s.vols c.ids vol hv
+    have := c.mPhys
+    simp only [VolOK] at hvo
+    show s.m.physical - occ vol.slots = sumBy (·.used) (s.vols.filter fun x => x.id != v)
+    omega
+  · intro p hp
+    obtain ⟨sl, h1, h2⟩ := h.pend p hp
+    refine ⟨sl, ?_, h2⟩
+    show slotAt (s.vols.filter fun x => x.id != v) p.v p.i = some sl
+    simp only [slotAt, findVol_filter_ne s.vols (hpv p hp)]
+    exact h1
+
+theorem eligibleAt_slot {vs : List Volume} {v i : Nat} (h : eligibleAt vs v i = true) :
+    ∃ sl, slotAt vs v i = some sl ∧ sl.sec = none := by
+  simp only [eligibleAt] at h
+  split at h
+  · simp at h
+  · rename_i vol hv
+    simp only [Bool.and_eq_true] at h
+    obtain ⟨_, h2⟩ := h
+    split at h2
+    · rename_i sl hs
+      exact ⟨sl, by simp [slotAt, hv, hs], by simpa [isFree] using h2⟩
+    · simp at h2
+
+theorem reserve_ok {s : State} (h : MetaOK s) (w : Nat) (r : SectorId) (b : BufId) (ch : Option (Nat × Nat)) :
+    MetaOK (reserve s w r b ch).1 := by
+  simp only [reserve]
+  split
+  · exact h
+  split
+  · exact metaOK_frame h rfl rfl rfl rfl rfl rfl (fun x hx => List.mem_cons_of_mem _ hx)
+  rename_i hloc
+  split
+  · exact h
+  split
+  · exact h
+  rename_i v i
+  split
+  · exact h
+  rename_i hel
+  obtain ⟨sl, hsl, hfree⟩ := eligibleAt_slot (by simpa using hel)
+  have hcnt : cnt s.vols r = 0 := (located_false_iff _ _).mp (by simpa using hloc)
+  refine ⟨core_place h.core hsl hfree hcnt, h.c1ids, h.c2ids, h.mContract, h.mTemp, ?_, ?_, ?_⟩
+  · intro p hp
+    simp only [List.mem_cons] at hp
+    rcases hp with rfl | hp
+    · rw [placeAt_eq]
+      exact ⟨setSec (some r) sl, by rw [slotAt_modVol]; simp [hsl], rfl⟩
+    · rw [placeAt_eq]
+      apply holdsAt_modVol_other _ _ (h.pend p hp)
+      intro ⟨e1, e2⟩
+      obtain ⟨sl', h1, h2⟩ := h.pend p hp
+      rw [e1, e2, hsl] at h1; cases h1
+      rw [hfree] at h2; cases h2
+  · simp only [List.map_cons, List.nodup_cons]
+    refine ⟨?_, h.pendR⟩
+    intro hm
+    obtain ⟨p, hp, e⟩ := List.mem_map.mp hm
+    have := holdsAt_cnt (h.pend p hp)
+    rw [e] at this; omega
+  · intro p hp
+    simp only [List.mem_cons] at hp
+    rcases hp with rfl | hp
+    · simp
+    · exact List.mem_cons_of_mem _ (h.pendRec p hp)
+
+theorem findPending_spec {w : Nat} {ps : List Pending} {p : Pending} (h : findPending w ps = some p) : p ∈ ps ∧ p.w = w := by
+  induction ps with
+  | nil => simp [findPending] at h
+  | cons x xs ih =>
+    simp only [findPending] at h
+    split at h
+    · simp at h; subst h; simp [*]
+    · have := ih h; simp [this]
+
+theorem modSlot_skel (v i : Nat) (f : Slot → Slot) (hf : ∀ x, (f x).sec = x.sec) (vs : List Volume) :
+    (modSlot v i f vs).map skel = vs.map skel := by
+  apply updVol_skel
+  intro x
+  simp only [skel]
+  rw [modAt_secs i f hf]
+
+theorem finish_ok {s : State} (h : MetaOK s) (w : Nat) (ok : Bool) : MetaOK (finish s w ok).1 := by
+  simp only [finish]
+  split
+  · exact h
+  rename_i p hp
+  obtain ⟨hpm, hpw⟩ := findPending_spec hp
+  have hsub : ∀ q ∈ s.pending.filter (fun q => q.w != w), q ∈ s.pending := fun q hq => (List.mem_filter.mp hq).1
+  have hnd : ((s.pending.filter (fun q => q.w != w)).map (·.r)).Nodup := nodup_map_filter _ h.pendR
+  have h0 : MetaOK { s with pending := s.pending.filter (fun q => q.w != w) } :=
+    metaOK_skel h rfl rfl rfl rfl rfl hsub hnd (fun _ hx => hx)
+  split
+  · exact h0
+  rename_i vol hv
+  split
+  · split
+    · exact h0
+    · rename_i c hc
+      refine metaOK_skel h ?_ rfl rfl rfl rfl hsub hnd (fun _ hx => hx)
+      exact modSlot_skel p.v p.i (fun sl => { sl with content := c, durable := false }) (fun _ => rfl) s.vols
+  · split
+    · exact h0
+    split
+    · exact h0
+    obtain ⟨hc, _, _⟩ := core_clear h.core (h.pend p hpm)
+    refine ⟨hc, h.c1ids, h.c2ids, h.mContract, h.mTemp, ?_, hnd, fun q hq => h.pendRec q (hsub q hq)⟩
+    intro q hq
+    have hqm := hsub q hq
+    rw [clearAt_eq]
+    apply holdsAt_modVol_other _ _ (h.pend q hqm)
+    intro ⟨e1, e2⟩
+    have hq' := h.pend q hqm
+    rw [e1, e2] at hq'
+    have er := holdsAt_inj hq' (h.pend p hpm)
+    have := nodup_map_inj h.pendR hqm hpm er
+    subst this
+    simp [hpw] at hq
+
+theorem core_m {vs : List Volume} {m m' : Metrics} (c : Core vs m) (ht : m'.total = m.total) (hp : m'.physical = m.physical) :
+    Core vs m' := ⟨c.ids, c.vol, c.uniq, by rw [ht]; exact c.mTotal, by rw [hp]; exact c.mPhys⟩
+
+theorem revise1_ok {s : State} (h : MetaOK s) (c : Nat) (chs : List Change) : MetaOK (revise1 s c chs).1 := by
+  simp only [revise1]
+  split
+  · exact h
+  rename_i con hc
+  split
+  · exact h
+  · exact h
+  rename_i roots' _
+  split
+  · exact h
+  have h1 := sumLen1_setRoots h.c1ids hc roots'
+  have h2 := sumLen1_mem_le (findC1_mem hc)
+  have := h.mContract
+  exact ⟨core_m h.core rfl rfl, by rw [show (_ : State).c1 = setRoots1 c roots' s.c1 from rfl, setRoots1_ids]; exact h.c1ids, h.c2ids,
+    by show s.m.contract + roots'.length - con.roots.length = sumLen1 (setRoots1 c roots' s.c1) + sumLen2 s.c2; omega,
+    h.mTemp, h.pend, h.pendR, h.pendRec⟩
+
+theorem revise2_ok {s : State} (h : MetaOK s) (c : Nat) (roots : List SectorId) : MetaOK (revise2 s c roots).1 := by
+  simp only [revise2]
+  split
+  · exact h
+  rename_i con hc
+  split
+  · exact h
+  split
+  · exact h
+  have h1 := sumLen2_setRoots h.c2ids hc roots
+  have h2 := sumLen2_mem_le (findC2_mem hc)
+  have := h.mContract
+  exact ⟨core_m h.core rfl rfl, h.c1ids, by rw [show (_ : State).c2 = setRoots2 c roots s.c2 from rfl, setRoots2_ids]; exact h.c2ids,
+    by show s.m.contract + roots.length - con.roots.length = sumLen1 s.c1 + sumLen2 (setRoots2 c roots s.c2); omega,
+    h.mTemp, h.pend, h.pendR, h.pendRec⟩
+
+theorem addTemp_ok {s : State} (h : MetaOK s) (r : SectorId) (exp : Nat) : MetaOK (addTemp s r exp).1 := by
+  simp only [addTemp]
+  split
+  · exact h
+  · exact ⟨core_m h.core rfl rfl, h.c1ids, h.c2ids, h.mContract, by simp [h.mTemp], h.pend, h.pendR, h.pendRec⟩
+
+theorem addTemps_ok {s : State} (h : MetaOK s) (l : List Temp) : MetaOK (addTemps s l).1 := by
+  simp only [addTemps]
+  split
+  · exact h
+  · exact ⟨core_m h.core rfl rfl, h.c1ids, h.c2ids, h.mContract, by simp [h.mTemp], h.pend, h.pendR, h.pendRec⟩
+
+theorem addC1_ok {s : State} (h : MetaOK s) (id wEnd : Nat) : MetaOK (addC1 s id wEnd).1 := by
+  simp only [addC1]
+  split
+  · exact h
+  · rename_i hf
+    have hnone : findC1 id s.c1 = none := by cases hx : findC1 id s.c1 <;> simp [hx] at hf ⊢
+    refine ⟨core_m h.core rfl rfl, ?_, h.c2ids, ?_, h.mTemp, h.pend, h.pendR, h.pendRec⟩
+    · simp only [List.map_append, List.map_cons, List.map_nil]
+      rw [List.nodup_append]
+      refine ⟨h.c1ids, by simp, ?_⟩
+      intro a ha b hb
+      simp at hb; subst hb
+      intro e; subst e
+      exact findC1_none_ids hnone ha
+    · simp only [sumLen1_append, sumLen1]; simp; exact h.mContract
+
+theorem addC2_ok {s : State} (h : MetaOK s) (id expH : Nat) : MetaOK (addC2 s id expH).1 := by
+  simp only [addC2]
+  split
+  · exact h
+  · rename_i hf
+    have hnone : findC2 id s.c2 = none := by cases hx : findC2 id s.c2 <;> simp [hx] at hf ⊢
+    refine ⟨core_m h.core rfl rfl, h.c1ids, ?_, ?_, h.mTemp, h.pend, h.pendR, h.pendRec⟩
+    · simp only [List.map_append, List.map_cons, List.map_nil]
+      rw [List.nodup_append]
+      refine ⟨h.c2ids, by simp, ?_⟩
+      intro a ha b hb
+      simp at hb; subst hb
+      intro e; subst e
+      exact findC2_none_ids hnone ha
+    · simp only [sumLen2_append, sumLen2]; simp; exact h.mContract
+
+theorem nodup_map_ids1 (g : C1 → C1) (hg : ∀ c, (g c).id = c.id) (cs : List C1) (h : (cs.map (·.id)).Nodup) :
+    ((cs.map g).map (·.id)).Nodup := by
+  have : (cs.map g).map (·.id) = cs.map (·.id) := by simp [List.map_map, Function.comp_def, hg]
+  rw [this]; exact h
+theorem nodup_map_ids2 (g : C2 → C2) (hg : ∀ c, (g c).id = c.id) (cs : List C2) (h : (cs.map (·.id)).Nodup) :
+    ((cs.map g).map (·.id)).Nodup := by
+  have : (cs.map g).map (·.id) = cs.map (·.id) := by simp [List.map_map, Function.comp_def, hg]
+  rw [this]; exact h
+
+theorem setStatus1_ok {s : State} (h : MetaOK s) (id : Nat) (st : S1) : MetaOK (setStatus1 s id st) := by
+  refine ⟨h.core, ?_, h.c2ids, ?_, h.mTemp, h.pend, h.pendR, h.pendRec⟩
+  · exact nodup_map_ids1 _ (by intro c; split <;> rfl) _ h.c1ids
+  · simp only [setStatus1]
+    rw [sumLen1_map_roots]; exact h.mContract
+    intro c; split <;> rfl
+
+theorem setStatus2_ok {s : State} (h : MetaOK s) (id : Nat) (st : S2) : MetaOK (setStatus2 s id st) := by
+  refine ⟨h.core, h.c1ids, ?_, ?_, h.mTemp, h.pend, h.pendR, h.pendRec⟩
+  · exact nodup_map_ids2 _ (by intro c; split <;> rfl) _ h.c2ids
+  · simp only [setStatus2]
+    rw [sumLen2_map_roots]; exact h.mContract
+    intro c; split <;> rfl
+
+theorem expire1_ok {s : State} (f : Facts) (h : MetaOK s) (ht : Nat) : MetaOK (expire1 f s ht).1 := by
+  simp only [expire1]
+  split
+  · exact h
+  have h1 := sumLen1_expire (dead1 f ht) s.c1
+  have := h.mContract
+  refine ⟨core_m h.core rfl rfl, ?_, h.c2ids, ?_, h.mTemp, h.pend, h.pendR, h.pendRec⟩
+  · exact nodup_map_ids1 _ (by intro c; split <;> rfl) _ h.c1ids
+  · simp only; omega
+
+theorem expire2_ok {s : State} (f : Facts) (h : MetaOK s) (ht : Nat) : MetaOK (expire2 f s ht).1 := by
+  simp only [expire2]
+  split
+  · exact h
+  have h1 := sumLen2_expire (dead2 f ht) s.c2
+  have := h.mContract
+  refine ⟨core_m h.core rfl rfl, h.c1ids, ?_, ?_, h.mTemp, h.pend, h.pendR, h.pendRec⟩
+  · exact nodup_map_ids2 _ (by intro c; split <;> rfl) _ h.c2ids
+  · simp only; omega
+
+theorem filter_length_add {α : Type} (p : α → Bool) (l : List α) : (l.filter p).length + (l.filter (fun x => !p x)).length = l.length := by
+  induction l with
+  | nil => rfl
+  | cons x xs ih => simp only [List.filter_cons]; cases p x <;> simp <;> omega
+
+theorem expireTemp_ok {s : State} (h : MetaOK s) (ht : Nat) : MetaOK (expireTemp s ht).1 := by
+  simp only [expireTemp]
+  split
+  · exact h
+  have h1 := filter_length_add (deadT ht) s.temps
+  have := h.mTemp
+  refine ⟨core_m h.core rfl rfl, h.c1ids, h.c2ids, h.mContract, ?_, h.pend, h.pendR, h.pendRec⟩
+  show s.m.temp - (s.temps.filter (deadT ht)).length = (s.temps.filter fun t => !deadT ht t).length
+  omega
+
+theorem tick_ok {s : State} (h : MetaOK s) (hs : s.pending = []) : MetaOK (tick s) :=
+  ⟨h.core, h.c1ids, h.c2ids, h.mContract, h.mTemp, by simp [tick, hs], by simp [tick, hs], by simp [tick, hs]⟩
+
+/-! ### prune -/
+
+theorem countP_map_le {α : Type} (p : α → Bool) (f : α → α) (hf : ∀ x, p (f x) = true → p x = true) (l : List α) :
+    (l.map f).countP p ≤ l.countP p := by
+  induction l with
+  | nil => simp
+  | cons x xs ih =>
+    simp only [List.map_cons, List.countP_cons]
+    have := hf x
+    cases h1 : p (f x) <;> cases h2 : p x <;> simp_all <;> omega
+
+theorem pruneSlot_sec (s : State) (x : Slot) : (pruneSlot s x).sec = x.sec ∨ (pruneSlot s x).sec = none := by
+  simp only [pruneSlot]
+  split
+  · split
+    · right; rfl
+    · left; rfl
+  · left; rfl
+
+theorem findVol_map (id : Nat) (g : Volume → Volume) (hg : ∀ x, (g x).id = x.id) (vs : List Volume) :
+    findVol id (vs.map g) = (findVol id vs).map g := by
+  induction vs with
+  | nil => rfl
+  | cons x xs ih =>
+    simp only [List.map_cons, findVol, hg]
+    split
+    · rfl
+    · exact ih
+
+theorem prune_ok {s : State} (h : MetaOK s) : MetaOK (prune s).1 := by
+  simp only [prune]
+  split
+  · exact h
+  split
+  · exact h
+  have c := h.core
+  have hocc : ∀ v : Volume, occ (v.slots.map (pruneSlot s)) ≤ occ v.slots := by
+    intro v
+    apply countP_map_le
+    intro x hx
+    rcases pruneSlot_sec s x with e | e
+    · simpa [isOcc, e] using hx
+    · simp [isOcc, e] at hx
+  have hid : ∀ x, (pruneVol s x).id = x.id := fun _ => rfl
+  refine ⟨⟨?_, ?_, ?_, ?_, ?_⟩, h.c1ids, h.c2ids, h.mContract, h.mTemp, ?_, h.pendR, h.pendRec⟩
+  · show ((s.vols.map (pruneVol s)).map (·.id)).Nodup
+    have : (s.vols.map (pruneVol s)).map (·.id) = s.vols.map (·.id) := by simp [List.map_map, Function.comp_def, hid]
+    rw [this]; exact c.ids
+  · intro y hy
+    obtain ⟨x, hx, rfl⟩ := List.mem_map.mp hy
+    have hv := c.vol x hx
+    have := hocc x
+    simp only [VolOK, pruneVol, List.length_map] at hv ⊢
+    omega
+  · intro r
+    have : cnt (s.vols.map (pruneVol s)) r ≤ cnt s.vols r := by
+      simp only [cnt, sumBy_map]
+      apply sumBy_le_sumBy
+      intro x _
+      simp only [pruneVol]
+      apply countP_map_le
+      intro y hy
+      rcases pruneSlot_sec s y with e | e
+      · simpa [holds, e] using hy
+      · simp [holds, e] at hy
+    exact Nat.le_trans this (c.uniq r)
+  · show s.m.total = sumBy (·.total) (s.vols.map (pruneVol s))
+    rw [sumBy_map]; exact c.mTotal
+  · show s.m.physical - sumBy (prunedIn s) s.vols = sumBy (·.used) (s.vols.map (pruneVol s))
+    rw [sumBy_map]
+    have := sumBy_sub (·.used) (prunedIn s) s.vols (by
+      intro v hv
+      have := c.vol v hv
+      simp only [VolOK, prunedIn] at this ⊢
+      omega)
+    have hp := c.mPhys
+    simp only [pruneVol, prunedIn] at this ⊢
+    omega
+  · intro p hp
+    obtain ⟨sl, h1, h2⟩ := h.pend p hp
+    obtain ⟨vol, hv, hs⟩ := slotAt_split h1
+    refine ⟨sl, ?_, h2⟩
+    show slotAt (s.vols.map (pruneVol s)) p.v p.i = some sl
+    simp only [slotAt, findVol_map _ _ hid, hv, Option.map_some, pruneVol, List.getElem?_map, hs]
+    have : pruneSlot s sl = sl := by
+      simp only [pruneSlot, h2, prunable]
+      have := h.pendRec p hp
+      have hc : s.recent.contains p.r = true := by simpa using this
+      simp [hc]
+      intro _ hn; exact absurd this hn
+    simp [this]
+
+/-! ### RemoveSector -/
+
+theorem idxOf_spec {r : SectorId} {l : List Slot} {k j : Nat} (h : idxOf r l k = some j) :
+    k ≤ j ∧ ∃ sl, l[j - k]? = some sl ∧ sl.sec = some r := by
+  induction l generalizing k with
+  | nil => simp [idxOf] at h
+  | cons x xs ih =>
+    simp only [idxOf] at h
+    split at h
+    · rename_i hx
+      simp at h; subst h
+      exact ⟨Nat.le_refl _, x, by simp, by simpa [holds] using hx⟩
+    · obtain ⟨h1, sl, h2, h3⟩ := ih h
+      refine ⟨by omega, sl, ?_, h3⟩
+      rw [show j - k = (j - (k + 1)) + 1 by omega]
+      simpa using h2
+
+theorem findLoc_spec {vs : List Volume} (hn : (vs.map (·.id)).Nodup) {r : SectorId} {v i : Nat} (h : findLoc vs r = some (v, i)) :
+    holdsAt vs v i r := by
+  induction vs with
+  | nil => simp [findLoc] at h
+  | cons x xs ih =>
+    simp only [List.map_cons, List.nodup_cons] at hn
+    simp only [findLoc] at h
+    split at h
+    · rename_i j hj
+      simp at h
+      obtain ⟨rfl, rfl⟩ := h
+      obtain ⟨_, sl, h2, h3⟩ := idxOf_spec hj
+      exact ⟨sl, by simpa [slotAt, findVol] using h2, h3⟩
+    · obtain ⟨sl, h1, h2⟩ := ih hn.2 h
+      obtain ⟨vol, hv, hs⟩ := slotAt_split h1
+      have : x.id ≠ v := by
+        intro e; apply hn.1
+        simp only [List.mem_map]; exact ⟨vol, (findVol_some hv).1, by rw [(findVol_some hv).2, e]⟩
+      exact ⟨sl, by simp [slotAt, findVol, this, hv, hs], h2⟩
+
+theorem syncVol_skel (v : Nat) (vs : List Volume) : (syncVol v vs).map skel = vs.map skel := by
+  apply updVol_skel
+  intro x
+  simp [skel, List.map_map, Function.comp_def]
+
+theorem removeSector_ok {s : State} (h : MetaOK s) (r : SectorId) (data : Bool) (hs : Safe s (.removeSector r data)) :
+    MetaOK (removeSector s r data).1 := by
+  simp only [removeSector]
+  split
+  · exact h
+  have h' : MetaOK { s with recent := r :: s.recent } :=
+    metaOK_frame h rfl rfl rfl rfl rfl rfl (fun x hx => List.mem_cons_of_mem _ hx)
+  split
+  · exact h'
+  rename_i v i hloc
+  split
+  · exact h'
+  split
+  · exact h'
+  split
+  · exact h'
+  have hh : holdsAt s.vols v i r := findLoc_spec h.core.ids hloc
+  obtain ⟨hc, _, _⟩ := core_clear h.core hh
+  have hpend : ∀ p ∈ s.pending, holdsAt (clearAt s.vols v i) p.v p.i p.r := by
+    intro p hp
+    rw [clearAt_eq]
+    apply holdsAt_modVol_other _ _ (h.pend p hp)
+    intro ⟨e1, e2⟩
+    have hq := h.pend p hp
+    rw [e1, e2] at hq
+    exact hs p hp (holdsAt_inj hq hh)
+  have hrec : ∀ p ∈ s.pending, p.r ∈ r :: s.recent := fun p hp => List.mem_cons_of_mem _ (h.pendRec p hp)
+  cases data with
+  | false =>
+    exact ⟨core_m hc rfl rfl, h.c1ids, h.c2ids, h.mContract, h.mTemp, hpend, h.pendR, hrec⟩
+  | true =>
+    have hsk : (syncVol v (modSlot v i zeroSlot (clearAt s.vols v i))).map skel = (clearAt s.vols v i).map skel := by
+      rw [syncVol_skel, modSlot_skel v i zeroSlot (fun _ => rfl)]
+    exact ⟨core_m (core_of_skel hsk hc) rfl rfl, h.c1ids, h.c2ids, h.mContract, h.mTemp,
+      fun p hp => holdsAt_of_skel hsk (hpend p hp), h.pendR, hrec⟩
+
+/-! ### migration -/
+
+theorem secAt_of_skel {vs vs' : List Volume} (h : vs'.map skel = vs.map skel) (v i : Nat) :
+    (slotAt vs' v i).map (·.sec) = (slotAt vs v i).map (·.sec) := by
+  have hf := findVol_of_skel h v
+  simp only [slotAt]
+  cases hv : findVol v vs with
+  | none =>
+    rw [hv] at hf
+    cases hv' : findVol v vs' with
+    | none => rfl
+    | some _ => simp [hv'] at hf
+  | some vol =>
+    rw [hv] at hf
+    cases hv' : findVol v vs' with
+    | none => simp [hv'] at hf
+    | some vol' =>
+      rw [hv'] at hf
+      simp only [Option.map_some, Option.some.injEq, skel, Prod.mk.injEq] at hf
+      exact getElem?_sec_of_secs hf.2.2.2 i
+
+theorem freeAt_of_skel {vs vs' : List Volume} (h : vs'.map skel = vs.map skel) {v i : Nat}
+    (hf : ∃ sl, slotAt vs v i = some sl ∧ sl.sec = none) : ∃ sl, slotAt vs' v i = some sl ∧ sl.sec = none := by
+  obtain ⟨sl, h1, h2⟩ := hf
+  have := secAt_of_skel h v i
+  rw [h1] at this
+  cases hs : slotAt vs' v i with
+  | none => simp [hs] at this
+  | some sl' => simp [hs] at this; exact ⟨sl', rfl, by rw [this, h2]⟩
+
+theorem cnt_modVol {vs : List Volume} (hn : (vs.map (·.id)).Nodup) {v i : Nat} {vol : Volume} {sl : Slot}
+    (hv : findVol v vs = some vol) (hs : vol.slots[i]? = some sl) (f : Slot → Slot) (u : Nat → Nat) (r' : SectorId) :
+    cnt (updVol v (modVol i f u) vs) r' + (if holds r' sl then 1 else 0) = cnt vs r' + (if holds r' (f sl) then 1 else 0) := by
+  have h1 := sumBy_updVol (fun v => v.slots.countP (holds r')) v (modVol i f u) vs hn vol hv
+  have h2 := countP_modAt (holds r') i f vol.slots sl hs
+  simp only [cnt, modVol] at h1 ⊢
+  omega
+
+theorem nextOcc_spec {l : List Slot} {k c i : Nat} {r : SectorId} (h : nextOcc l k c = some (i, r)) :
+    k ≤ i ∧ ∃ sl, l[i - k]? = some sl ∧ sl.sec = some r := by
+  induction l generalizing k with
+  | nil => simp [nextOcc] at h
+  | cons x xs ih =>
+    simp only [nextOcc] at h
+    have step : nextOcc xs (k + 1) c = some (i, r) → k ≤ i ∧ ∃ sl, (x :: xs)[i - k]? = some sl ∧ sl.sec = some r := by
+      intro h'
+      obtain ⟨h1, sl, h2, h3⟩ := ih h'
+      refine ⟨by omega, sl, ?_, h3⟩
+      rw [show i - k = (i - (k + 1)) + 1 by omega]
+      simpa using h2
+    split at h
+    · split at h
+      · rename_i r' hr'
+        simp at h
+        obtain ⟨rfl, rfl⟩ := h
+        exact ⟨Nat.le_refl _, x, by simp, hr'⟩
+      · exact step h
+    · exact step h
+
+theorem validTo_slot {vs : List Volume} {v start tv ti : Nat} (h : validTo vs v start tv ti = true) :
+    ∃ sl, slotAt vs tv ti = some sl ∧ sl.sec = none := by
+  simp only [validTo] at h
+  split at h
+  · exact eligibleAt_slot h
+  · simp only [Bool.and_eq_true, decide_eq_true_eq] at h
+    obtain ⟨⟨⟨_, rfl⟩, _⟩, h4⟩ := h
+    split at h4
+    · rename_i sl hs
+      exact ⟨sl, hs, by simpa [isFree] using h4⟩
+    · simp at h4
+
+theorem moveMeta_eq {vs : List Volume} {m : Metrics} (c : Core vs m) {v i : Nat} {r : SectorId} (hh : holdsAt vs v i r) (tv ti : Nat) :
+    moveMeta vs v i tv ti r = placeAt (clearAt vs v i) tv ti r := by
+  simp only [moveMeta]
+  split
+  · rename_i e
+    subst e
+    obtain ⟨_, _, vol, hv, hpos⟩ := core_clear c hh
+    simp only [placeAt, clearAt, updVol, List.map_map]
+    apply List.map_congr_left
+    intro x hx
+    simp only [Function.comp]
+    by_cases hid : x.id = v
+    · have := eq_of_findVol c.ids hv hx hid
+      subst this
+      simp only [hid, if_true]
+      have : x.used - 1 + 1 = x.used := by omega
+      simp [this]
+    · simp [hid]
+  · rfl
+
+theorem core_move {vs : List Volume} {m : Metrics} {v i tv ti : Nat} {r : SectorId} {sl : Slot}
+    (c : Core vs m) (hh : holdsAt vs v i r) (ht : slotAt vs tv ti = some sl) (hfree : sl.sec = none) :
+    Core (moveMeta vs v i tv ti r) m := by
+  rw [moveMeta_eq c hh]
+  obtain ⟨hc, hp, _⟩ := core_clear c hh
+  obtain ⟨sl0, hs0, hsec0⟩ := hh
+  have hne : ¬ (tv = v ∧ ti = i) := by
+    intro ⟨e1, e2⟩
+    rw [e1, e2, hs0] at ht; cases ht
+    rw [hfree] at hsec0; cases hsec0
+  have ht' : slotAt (clearAt vs v i) tv ti = some sl := by
+    rw [clearAt_eq, slotAt_modVol]; simp [hne, ht]
+  obtain ⟨vol, hv, hs⟩ := slotAt_split hs0
+  have hcnt : cnt (clearAt vs v i) r = 0 := by
+    have := cnt_modVol c.ids hv hs (setSec none) (· - 1) r
+    have hu := c.uniq r
+    rw [clearAt_eq]
+    simp [holds, hsec0, setSec] at this
+    omega
+  have := core_place hc ht' hfree hcnt
+  exact core_m this rfl (by simp only; omega)
+
+theorem holdsAt_move {vs : List Volume} {m : Metrics} (c : Core vs m) {v i tv ti pv pi : Nat} {r pr : SectorId} {sl : Slot}
+    (hh : holdsAt vs v i r) (ht : slotAt vs tv ti = some sl) (hfree : sl.sec = none)
+    (hq : holdsAt vs pv pi pr) (hne : ¬ (pv = v ∧ pi = i)) : holdsAt (moveMeta vs v i tv ti r) pv pi pr := by
+  rw [moveMeta_eq c hh, placeAt_eq, clearAt_eq]
+  apply holdsAt_modVol_other
+  · exact holdsAt_modVol_other _ _ hq hne
+  · intro ⟨e1, e2⟩
+    obtain ⟨sl', h1, h2⟩ := hq
+    rw [e1, e2, ht] at h1; cases h1
+    rw [hfree] at h2; cases h2
+
+theorem moveOne_pending (s : State) (v i : Nat) (r : SectorId) (mv : Move) : (moveOne s v i r mv).1.pending = s.pending := by
+  simp only [moveOne]
+  split
+  · rfl
+  split
+  · rfl
+  split
+  · rfl
+  split <;> rfl
+
+theorem moveOne_ok {s : State} (h : MetaOK s) {v i : Nat} {r : SectorId} (mv : Move) (hh : holdsAt s.vols v i r)
+    (ht : ∃ sl, slotAt s.vols mv.toV mv.toI = some sl ∧ sl.sec = none) (hs : ∀ p ∈ s.pending, p.v ≠ v) :
+    MetaOK (moveOne s v i r mv).1 := by
+  simp only [moveOne]
+  split
+  · exact h
+  split
+  · exact h
+  rename_i sl0 hsl0
+  have h1 : MetaOK { s with heap := s.heap ++ [sl0.content], cache := cacheAdd s.cacheSize r s.heap.length s.cache } :=
+    metaOK_frame h rfl rfl rfl rfl rfl rfl (fun _ hx => hx)
+  split
+  · exact h1
+  have hsk : (syncVol mv.toV (modSlot mv.toV mv.toI (fun x => { x with content := sl0.content, durable := false }) s.vols)).map skel
+      = s.vols.map skel := by
+    rw [syncVol_skel, modSlot_skel mv.toV mv.toI (fun x => { x with content := sl0.content, durable := false }) (fun _ => rfl)]
+  have h2 : MetaOK { s with
+      vols := syncVol mv.toV (modSlot mv.toV mv.toI (fun x => { x with content := sl0.content, durable := false }) s.vols)
+      heap := s.heap ++ [sl0.content]
+      cache := cacheAdd s.cacheSize r s.heap.length s.cache } :=
+    metaOK_skel h hsk rfl rfl rfl rfl (fun _ hp => hp) h.pendR (fun _ hx => hx)
+  split
+  · exact h2
+  have hh' := holdsAt_of_skel hsk hh
+  obtain ⟨slt, ht1, ht2⟩ := freeAt_of_skel hsk ht
+  refine ⟨core_move h2.core hh' ht1 ht2, h.c1ids, h.c2ids, h.mContract, h.mTemp, ?_, h.pendR, h.pendRec⟩
+  intro p hp
+  apply holdsAt_move h2.core hh' ht1 ht2 (h2.pend p hp)
+  intro ⟨e1, _⟩
+  exact hs p hp e1
+
+theorem migrateGo_ok {v start : Nat} (moves : List Move) : ∀ {s : State} (cursor nOk nFail : Nat), MetaOK s →
+    (∀ p ∈ s.pending, p.v ≠ v) → MetaOK (migrateGo s v start cursor nOk nFail moves).1 := by
+  induction moves with
+  | nil =>
+    intro s cursor nOk nFail h _
+    simp only [migrateGo]
+    split
+    · exact h
+    split
+    · exact h
+    split <;> exact h
+  | cons mv rest ih =>
+    intro s cursor nOk nFail h hs
+    simp only [migrateGo]
+    split
+    · exact h
+    rename_i vol hv
+    split
+    · exact h
+    rename_i i r hn
+    split
+    · exact h
+    split
+    · exact h
+    rename_i hvalid
+    obtain ⟨_, sl, hsl, hsec⟩ := nextOcc_spec hn
+    have hh : holdsAt s.vols v i r := ⟨sl, by simpa [slotAt, hv] using hsl, hsec⟩
+    have ht := validTo_slot (by simpa using hvalid)
+    have hm := moveOne_ok h mv hh ht hs
+    have hp := moveOne_pending s v i r mv
+    generalize hmo : moveOne s v i r mv = res at hm hp
+    obtain ⟨s', ok⟩ := res
+    simp only at hm hp ⊢
+    split
+    · exact hm
+    split
+    · split
+      · exact hm
+      · exact ih _ _ _ hm (by rw [hp]; exact hs)
+    · exact ih _ _ _ hm (by rw [hp]; exact hs)
+
+theorem migrate_ok {s : State} (h : MetaOK s) (v start : Nat) (moves : List Move) (hs : ∀ p ∈ s.pending, p.v ≠ v) :
+    MetaOK (migrate s v start moves).1 := migrateGo_ok moves _ _ _ h hs
+
+theorem migrateGo_pending {v start : Nat} (moves : List Move) : ∀ (s : State) (cursor nOk nFail : Nat),
+    (migrateGo s v start cursor nOk nFail moves).1.pending = s.pending := by
+  induction moves with
+  | nil =>
+    intro s cursor nOk nFail
+    simp only [migrateGo]
+    split
+    · rfl
+    split
+    · rfl
+    split <;> rfl
+  | cons mv rest ih =>
+    intro s cursor nOk nFail
+    simp only [migrateGo]
+    split
+    · rfl
+    split
+    · rfl
+    rename_i i r _
+    split
+    · rfl
+    split
+    · rfl
+    have hp := moveOne_pending s v i r mv
+    generalize moveOne s v i r mv = res at hp
+    obtain ⟨s', ok⟩ := res
+    simp only at hp ⊢
+    split
+    · exact hp
+    split
+    · split
+      · exact hp
+      · rw [ih]; exact hp
+    · rw [ih]; exact hp
+
+/-! ### operations that only touch file contents, flags or process memory -/
+
+theorem crashSlots_secs (v : Nat) (lost : List (Nat × Nat)) (l : List Slot) (k : Nat) :
+    (crashSlots v lost l k).map (·.sec) = l.map (·.sec) := by
+  induction l generalizing k with
+  | nil => rfl
+  | cons x xs ih =>
+    simp only [crashSlots, List.map_cons, ih]
+    split <;> rfl
+
+theorem map_skel_of (g : Volume → Volume) (hg : ∀ x, skel (g x) = skel x) (vs : List Volume) : (vs.map g).map skel = vs.map skel := by
+  simp [List.map_map, Function.comp_def, hg]
+
+theorem crash_ok {s : State} (h : MetaOK s) (lost : List (Nat × Nat)) : MetaOK (crash s lost).1 := by
+  simp only [crash]
+  split
+  · exact h
+  · refine metaOK_skel h ?_ rfl rfl rfl rfl (by simp) (by simp) (fun _ hx => hx)
+    apply map_skel_of
+    intro x
+    simp only [skel, crashSlots_secs]
+
+theorem restart_ok {s : State} (h : MetaOK s) : MetaOK (restart s).1 := by
+  simp only [restart]
+  split
+  · exact h
+  · apply crash_ok
+    refine metaOK_skel h ?_ rfl rfl rfl rfl (fun _ hp => hp) h.pendR (fun _ hx => hx)
+    apply map_skel_of
+    intro x
+    simp [skel, List.map_map, Function.comp_def]
+
+theorem sync_ok {s : State} (h : MetaOK s) : MetaOK (sync s) := by
+  refine metaOK_skel h ?_ rfl rfl rfl rfl (fun _ hp => hp) h.pendR (fun _ hx => hx)
+  show (s.changed.foldl (fun vs v => syncVol v vs) s.vols).map skel = s.vols.map skel
+  generalize s.changed = l
+  generalize s.vols = vs
+  induction l generalizing vs with
+  | nil => rfl
+  | cons x xs ih => simp only [List.foldl_cons]; rw [ih, syncVol_skel]
+
+theorem read_ok {s : State} (h : MetaOK s) (r : SectorId) : MetaOK (Hostd.Volumes.read s r).1 := by
+  simp only [Hostd.Volumes.read]
+  split
+  · exact metaOK_frame h rfl rfl rfl rfl rfl rfl (fun _ hx => hx)
+  split
+  · exact h
+  have h' : MetaOK { s with recent := r :: s.recent } :=
+    metaOK_frame h rfl rfl rfl rfl rfl rfl (fun x hx => List.mem_cons_of_mem _ hx)
+  split
+  · exact h'
+  split
+  · exact h'
+  · exact metaOK_frame h rfl rfl rfl rfl rfl rfl (fun x hx => List.mem_cons_of_mem _ hx)
+
+theorem mutate_ok {s : State} (h : MetaOK s) (b : BufId) (c : Content) : MetaOK (mutate s b c).1 := by
+  simp only [mutate]
+  split
+  · exact metaOK_frame h rfl rfl rfl rfl rfl rfl (fun _ hx => hx)
+  · exact h
+
+/-! ### VolumeManager orchestration -/
+
+theorem setReadOnly_pending (s : State) (v : Nat) (b : Bool) : (setReadOnly s v b).pending = s.pending := rfl
+
+theorem vmAddVolume_ok {s : State} (h : MetaOK s) (id n : Nat) : MetaOK (vmAddVolume s id n).1 := by
+  simp only [vmAddVolume]
+  split
+  · exact h
+  have ha := addVolume_ok h id false
+  generalize addVolume s id false = res at ha
+  obtain ⟨s1, r⟩ := res
+  cases r <;> first | exact ha | exact grow_ok (setAvailable_ok ha id true) id n
+
+theorem vmResize_ok {s : State} (h : MetaOK s) (v n : Nat) (moves : List Move) (hs : ∀ p ∈ s.pending, p.v ≠ v) :
+    MetaOK (vmResize s v n moves).1 := by
+  simp only [vmResize]
+  split
+  · exact h
+  rename_i vol hv
+  split
+  · -- shrinking
+    have h1 : MetaOK (if (!vol.readOnly) = true then setReadOnly s v true else s) := by
+      split
+      · exact setReadOnly_ok h v true
+      · exact h
+    have hp1 : (if (!vol.readOnly) = true then setReadOnly s v true else s).pending = s.pending := by split <;> rfl
+    generalize (if (!vol.readOnly) = true then setReadOnly s v true else s) = s1 at h1 hp1
+    have h2 := migrate_ok h1 v n moves (by rw [hp1]; exact hs)
+    generalize migrate s1 v n moves = res at h2
+    obtain ⟨s2, r⟩ := res
+    simp only at h2 ⊢
+    have key : ∀ (x : State × Res), MetaOK x.1 →
+        MetaOK (if (!vol.readOnly) = true then setReadOnly x.1 v false else x.1) := by
+      intro x hx
+      split
+      · exact setReadOnly_ok hx v false
+      · exact hx
+    apply key
+    split
+    · exact shrink_ok h2 v n
+    · exact h2
+    · exact h2
+  · split
+    · exact grow_ok h v n
+    · exact h
+
+theorem vmRemove_ok {s : State} (h : MetaOK s) (v : Nat) (force : Bool) (moves : List Move) (hs : ∀ p ∈ s.pending, p.v ≠ v) :
+    MetaOK (vmRemove s v force moves).1 := by
+  simp only [vmRemove]
+  split
+  · exact h
+  have h1 := setReadOnly_ok h v true
+  have h2 := migrate_ok h1 v 0 moves (by rw [setReadOnly_pending]; exact hs)
+  have hp2 : (migrate (setReadOnly s v true) v 0 moves).1.pending = s.pending := by
+    simp only [migrate]; rw [migrateGo_pending]; rfl
+  generalize migrate (setReadOnly s v true) v 0 moves = res at h2 hp2
+  obtain ⟨s2, r⟩ := res
+  simp only at h2 hp2 ⊢
+  split
+  · split
+    · exact h2
+    · apply removeVolume_ok h2
+      intro _ p hp
+      rw [hp2] at hp
+      exact hs p hp
+  · exact h2
+
+/-! ## every step preserves the invariant -/
+
+theorem step_ok (f : Facts) {s : State} (h : MetaOK s) (op : Op) (hs : Safe s op) : MetaOK (step f s op).1 := by
+  cases op with
+  | addVolume id ro => exact addVolume_ok h id ro
+  | grow v n => exact grow_ok h v n
+  | shrink v n => exact shrink_ok h v n
+  | removeVolume v force => exact removeVolume_ok h v force hs
+  | setReadOnly v b => exact setReadOnly_ok h v b
+  | setAvailable v b => exact setAvailable_ok h v b
+  | reserve w r b ch => exact reserve_ok h w r b ch
+  | finish w ok => exact finish_ok h w ok
+  | revise1 c chs => exact revise1_ok h c chs
+  | revise2 c roots => exact revise2_ok h c roots
+  | addTemp r exp => exact addTemp_ok h r exp
+  | addTemps l => exact addTemps_ok h l
+  | addC1 id wEnd => exact addC1_ok h id wEnd
+  | addC2 id expH => exact addC2_ok h id expH
+  | setStatus1 id st => exact setStatus1_ok h id st
+  | setStatus2 id st => exact setStatus2_ok h id st
+  | expire1 ht => exact expire1_ok f h ht
+  | expire2 ht => exact expire2_ok f h ht
+  | expireTemp ht => exact expireTemp_ok h ht
+  | tick => exact tick_ok h hs
+  | prune => exact prune_ok h
+  | removeSector r data => exact removeSector_ok h r data hs
+  | migrate v start moves => exact migrate_ok h v start moves hs
+  | read r => exact read_ok h r
+  | newBuf c => exact metaOK_frame h rfl rfl rfl rfl rfl rfl (fun _ hx => hx)
+  | mutate b c => exact mutate_ok h b c
+  | sync => exact sync_ok h
+  | resizeCache n => exact metaOK_frame h rfl rfl rfl rfl rfl rfl (fun _ hx => hx)
+  | crash lost => exact crash_ok h lost
+  | restart => exact restart_ok h
+  | vmAddVolume id n => exact vmAddVolume_ok h id n
+  | vmResize v n moves => exact vmResize_ok h v n moves hs
+  | vmRemove v force moves => exact vmRemove_ok h v force moves hs
+
+/-- every step of the history respects `Safe` in the state it is executed in -/
+def SafeRun (f : Facts) : State → List Op → Prop
+  | _, [] => True
+  | s, op :: ops => Safe s op ∧ SafeRun f (step f s op).1 ops
+
+theorem init_ok (n : Nat) : MetaOK (init n) := by
+  refine ⟨⟨?_, ?_, ?_, ?_, ?_⟩, ?_, ?_, ?_, ?_, ?_, ?_, ?_⟩ <;> simp [init, cnt, sumBy, sumLen1, sumLen2]
+
+/-- **C08, accounting clause.** In every state reachable from the empty store by any operation
+sequence (any oracle values, any failure injections) each located sector occupies exactly one slot,
+`used_sectors` / `total_sectors` of every volume equal the recount and the total, physical, contract
+and temp sector metrics equal the sums. -/
+theorem C08_slot_inv (f : Facts) (ops : List Op) : ∀ (s : State), MetaOK s → SafeRun f s ops → MetaOK (run f s ops) := by
+  induction ops with
+  | nil => intro s h _; exact h
+  | cons op ops ih =>
+    intro s h hs
+    simp only [run, List.foldl_cons]
+    exact ih _ (step_ok f h op hs.1) hs.2
+
+theorem C08_slot_inv_init (f : Facts) (cache : Nat) (ops : List Op) (hs : SafeRun f (init cache) ops) :
+    MetaOK (run f (init cache) ops) := C08_slot_inv f ops _ (init_ok cache) hs
+
 end Hostd.Props.C08
